@@ -42,6 +42,11 @@ def cases(rng, tier):
     # valid (and invalid) strings that are also the names of files in the current working directory
     for raw in ("README", "LICENSE", "DATA", "tests", "misc", "KKKKKKKKKK", "ACDEFGHIKLMNPQRSTVWY", "setup", "Makefile", "data.txt", "mk ed"):
         yield Case(["mkcwd %s seq" % hex6(raw), "mkcwd %s fcr" % hex6(raw)], {"kind": "namesake-file-in-cwd"})
+    # lengths at / next to powers of two and round thousands, given in mixed case with line breaks every 60 residues
+    for sq in gen.boundary_seqs(rng, tier != "quick"):
+        raw = "\n".join(sq[i:i + 60] for i in range(0, len(sq), 60))
+        raw = "".join(c.lower() if rng.random() < 0.3 else c for c in raw)
+        yield Case(["mkq %s %s" % (hex6(raw), q) for q in ("len", "seq", "countPos", "fcr")], {"kind": "boundary-length"})
     for wd in gen.AMBIGUOUS_WORDS:
         yield mk(wd, {"kind": "ambiguous-word"}, analyses=True)
     # the SAME invalid character at two or three places (and two different ones)
